@@ -183,66 +183,6 @@ Proof.
       * exact IH.
 Qed.
 
-Definition reassign_all (rs : list rid) (p : pid) (m : omap) : omap :=
-  fold_left (fun m r => reassign r p m) rs m.
-
-Definition insert_all (rs : list rid) (p : pid) (m : omap) : omap :=
-  fold_left (fun m r => insert r p m) rs m.
-
-Lemma transfer_rids : forall v p m, transfer v p m = reassign_all (rids_of v) p m.
-Proof.
-  intros v p. induction v as [r|fs IH|cs IH|] using val_ind'; intro m; cbn [transfer rids_of]; try reflexivity.
-  - revert m. induction fs as [|f t IHt]; intro m; cbn [fold_left flat_map]; [reflexivity|].
-    inversion IH as [|? ? Hf Ht]; subst. unfold reassign_all. rewrite fold_left_app.
-    fold (reassign_all (rids_of f) p m). rewrite <- Hf. exact (IHt Ht _).
-  - revert m. induction cs as [|c t IHt]; intro m; cbn [fold_left flat_map]; [reflexivity|].
-    inversion IH as [|? ? Hc Ht]; subst. unfold reassign_all. rewrite fold_left_app.
-    fold (reassign_all (rids_of c) p m). rewrite <- Hc. exact (IHt Ht _).
-Qed.
-
-Lemma transfer_all_rids : forall vs p m, transfer_all vs p m = reassign_all (flat_map rids_of vs) p m.
-Proof.
-  intros vs p. induction vs as [|v t IH]; intro m; cbn [transfer_all fold_left flat_map]; [reflexivity|].
-  unfold reassign_all. rewrite fold_left_app. fold (reassign_all (rids_of v) p m).
-  rewrite <- transfer_rids. exact (IH _).
-Qed.
-
-Lemma keys_reassign_all : forall rs p m, keys (reassign_all rs p m) = keys m.
-Proof.
-  intros rs p. induction rs as [|a t IH]; intro m; cbn [reassign_all fold_left]; [reflexivity|].
-  fold (reassign_all t p (reassign a p m)). rewrite IH. apply keys_reassign.
-Qed.
-
-Lemma lookup_insert_all_notin : forall rs p m r, ~ In r rs -> lookup r (insert_all rs p m) = lookup r m.
-Proof.
-  intros rs p. induction rs as [|a t IH]; intros m r Hn; cbn [insert_all fold_left]; [reflexivity|].
-  fold (insert_all t p (insert a p m)). rewrite IH by (intro H; apply Hn; right; exact H).
-  apply lookup_insert_neq. intro H. apply Hn. left. symmetry. exact H.
-Qed.
-
-Lemma lookup_insert_all_in : forall rs p m r, In r rs -> lookup r (insert_all rs p m) = Some p.
-Proof.
-  intros rs p. induction rs as [|a t IH]; intros m r Hin; [destruct Hin|].
-  cbn [insert_all fold_left]. fold (insert_all t p (insert a p m)).
-  destruct (in_dec N.eq_dec r t) as [Ht|Ht]; [exact (IH _ _ Ht)|].
-  rewrite lookup_insert_all_notin by exact Ht.
-  destruct Hin as [->|Hin]; [apply lookup_insert_eq|contradiction].
-Qed.
-
-Lemma nodup_insert_all : forall rs p m, NoDup (keys m) -> NoDup (keys (insert_all rs p m)).
-Proof.
-  intros rs p. induction rs as [|a t IH]; intros m H; cbn [insert_all fold_left]; [exact H|].
-  apply IH. apply nodup_insert. exact H.
-Qed.
-
-Lemma keys_insert_all : forall rs p m x, In x (keys (insert_all rs p m)) <-> In x rs \/ In x (keys m).
-Proof.
-  intros rs p. induction rs as [|a t IH]; intros m x; cbn [insert_all fold_left In]; [tauto|].
-  fold (insert_all t p (insert a p m)). rewrite IH, keys_insert. intuition congruence.
-Qed.
-
-(* ------------------------------------------------------------------ cleanup *)
-
 Definition remove_all (rs : list rid) (m : omap) : omap := fold_left (fun m r => remove r m) rs m.
 
 Lemma lookup_remove_none : forall a m r, lookup r m = None -> lookup r (remove a m) = None.
@@ -423,27 +363,66 @@ Proof.
   - apply N.eqb_neq in E. apply lookup_insert_neq. exact E.
 Qed.
 
-Lemma lookup_insert_all : forall rs p m r,
-  lookup r (insert_all rs p m) = if memb r rs then Some p else lookup r m.
+
+(* ------------------------------------------------------------------ give_resources *)
+
+Definition give1 (g : pid) (new : pid) (m : omap) (r : rid) : omap :=
+  if owner_is g (lookup r m) then reassign r new m else m.
+
+Definition give_list (g : pid) (rs : list rid) (new : pid) (m : omap) : omap :=
+  fold_left (give1 g new) rs m.
+
+Lemma give_rids : forall g v new m, give g v new m = give_list g (rids_of v) new m.
 Proof.
-  intros rs p m r. destruct (memb r rs) eqn:E.
-  - apply memb_in in E. apply lookup_insert_all_in. exact E.
-  - apply memb_notin in E. apply lookup_insert_all_notin. exact E.
+  intros g v new. induction v as [r|fs IH|cs IH|] using val_ind'; intro m; cbn [give rids_of]; try reflexivity.
+  - revert m. induction fs as [|f t IHt]; intro m; cbn [fold_left flat_map]; [reflexivity|].
+    inversion IH as [|? ? Hf Ht]; subst. unfold give_list. rewrite fold_left_app.
+    fold (give_list g (rids_of f) new m). rewrite <- Hf. exact (IHt Ht _).
+  - revert m. induction cs as [|c t IHt]; intro m; cbn [fold_left flat_map]; [reflexivity|].
+    inversion IH as [|? ? Hc Ht]; subst. unfold give_list. rewrite fold_left_app.
+    fold (give_list g (rids_of c) new m). rewrite <- Hc. exact (IHt Ht _).
 Qed.
 
-Definition moved (old : option pid) (p : pid) : option pid :=
-  match old with Some _ => Some p | None => None end.
-
-Lemma lookup_reassign_all : forall rs p m r,
-  lookup r (reassign_all rs p m) = if memb r rs then moved (lookup r m) p else lookup r m.
+Lemma give_all_rids : forall g vs new m, give_all g vs new m = give_list g (flat_map rids_of vs) new m.
 Proof.
-  intros rs p. induction rs as [|a t IH]; intros m r; cbn [reassign_all fold_left memb existsb]; [reflexivity|].
-  fold (reassign_all t p (reassign a p m)). fold (memb r t). rewrite IH, lookup_reassign.
-  destruct (N.eqb r a); cbn [orb]; destruct (memb r t); try reflexivity.
-  unfold moved. destruct (lookup r m); reflexivity.
+  intros g vs new. induction vs as [|v t IH]; intro m; cbn [give_all fold_left flat_map]; [reflexivity|].
+  unfold give_list. rewrite fold_left_app. fold (give_list g (rids_of v) new m).
+  rewrite <- give_rids. exact (IH _).
 Qed.
 
-(* environment.rs:1703-1714: the request is refused without touching the backend *)
+Lemma keys_give_list : forall g rs new m, keys (give_list g rs new m) = keys m.
+Proof.
+  intros g rs new. induction rs as [|a t IH]; intro m; cbn [give_list fold_left]; [reflexivity|].
+  fold (give_list g t new (give1 g new m a)). rewrite IH. unfold give1.
+  destruct (owner_is g (lookup a m)); [apply keys_reassign|reflexivity].
+Qed.
+
+Lemma lookup_give1 : forall g new m a r,
+  lookup r (give1 g new m a) =
+  if N.eqb r a && owner_is g (lookup r m) then Some new else lookup r m.
+Proof.
+  intros g new m a r. unfold give1. destruct (N.eqb r a) eqn:E; cbn [andb].
+  - apply N.eqb_eq in E. subst a. destruct (owner_is g (lookup r m)) eqn:Eo; [|reflexivity].
+    rewrite lookup_reassign, N.eqb_refl. unfold owner_is in Eo. destruct (lookup r m); [reflexivity|discriminate].
+  - destruct (owner_is g (lookup a m)); [|reflexivity]. rewrite lookup_reassign, E. reflexivity.
+Qed.
+
+(* a resource carried by the value moves exactly when the giver owns it *)
+Lemma lookup_give_list : forall g rs new m r,
+  lookup r (give_list g rs new m) =
+  if memb r rs && owner_is g (lookup r m) then Some new else lookup r m.
+Proof.
+  intros g rs new. induction rs as [|a t IH]; intros m r; cbn [give_list fold_left memb existsb]; [reflexivity|].
+  fold (give_list g t new (give1 g new m a)). fold (memb r t). rewrite IH, lookup_give1.
+  destruct (N.eqb r a); cbn [orb andb]; [|reflexivity].
+  destruct (owner_is g (lookup r m)) eqn:Eo; cbn [andb].
+  - destruct (memb r t && owner_is g (Some new)); reflexivity.
+  - rewrite Eo, andb_false_r. reflexivity.
+Qed.
+
+(* ------------------------------------------------------------------ one step, characterised *)
+
+(* environment.rs handle_effect_request: the request is refused without touching the backend *)
 Definition deniedb (s : state) (p : pid) (e : effect) : bool :=
   match resource_id e with
   | Some r => match lookup r (owner s) with
@@ -457,10 +436,10 @@ Lemma effect_request_unfold : forall s p e a,
   handle_effect_request s p e a =
   if deniedb s p e then s
   else
-    let s1 := mkState (owner s) (dead s) (pending s) (next_pid s) (log s ++ [CExec p e]) in
+    let s1 := mkState (owner s) (dead s) (pending s) (next_pid s) (log s ++ [CExec p e]) (watched s) in
     match a with
     | ANow res => handle_effect_completion s1 p res
-    | AAsync => mkState (owner s1) (dead s1) (p :: pending s1) (next_pid s1) (log s1)
+    | AAsync => mkState (owner s1) (dead s1) (p :: pending s1) (next_pid s1) (log s1) (watched s1)
     | AFail => s1
     end.
 Proof. reflexivity. Qed.
@@ -469,26 +448,68 @@ Lemma completion_owner : forall s p res r,
   lookup r (owner (handle_effect_completion s p res)) =
   if memb r (result_rid res) then Some p else lookup r (owner s).
 Proof.
-  intros s p res r. unfold handle_effect_completion. cbn [owner].
-  destruct res as [[r'| | |]|]; cbn [result_rid memb existsb orb]; try reflexivity.
+  intros s p res r. unfold handle_effect_completion.
+  destruct res as [[r'| | |]|]; cbn [result_rid memb existsb orb owner watch]; try reflexivity.
   rewrite lookup_insert. destruct (N.eqb r r'); reflexivity.
 Qed.
 
 Lemma completion_inv : forall s p res, inv s -> inv (handle_effect_completion s p res).
 Proof.
-  intros s p res H. unfold inv, handle_effect_completion. cbn [owner].
-  destruct res as [[r'| | |]|]; try exact H. apply nodup_insert. exact H.
+  intros s p res H. unfold inv, handle_effect_completion.
+  destruct res as [[r'| | |]|]; try exact H. cbn [owner watch]. apply nodup_insert. exact H.
 Qed.
+
+Lemma completion_log : forall s p res, log (handle_effect_completion s p res) = log s.
+Proof. intros s p res. unfold handle_effect_completion. destruct res as [[r'| | |]|]; reflexivity. Qed.
+
+Lemma completion_dead : forall s p res, dead (handle_effect_completion s p res) = dead s.
+Proof. intros s p res. unfold handle_effect_completion. destruct res as [[r'| | |]|]; reflexivity. Qed.
+
+Lemma completion_watched : forall s p res,
+  watched (handle_effect_completion s p res) = if memb p (map (fun _ => p) (result_rid res)) then p :: watched s else watched s.
+Proof.
+  intros s p res. unfold handle_effect_completion.
+  destruct res as [[r'| | |]|]; cbn [result_rid map memb existsb orb watched watch]; try reflexivity.
+  rewrite N.eqb_refl. reflexivity.
+Qed.
+
+Lemma spawn_owner : forall s c vals,
+  owner (handle_spawn s c vals) = give_all c vals (next_pid s) (owner s).
+Proof. intros s c vals. unfold handle_spawn. destruct (gives_any c vals (owner s)); reflexivity. Qed.
+
+Lemma deliver_owner : forall s sd t v, owner (handle_deliver s sd t v) = give sd v t (owner s).
+Proof. intros s sd t v. unfold handle_deliver. destruct (gives_any sd [v] (owner s)); reflexivity. Qed.
+
+Lemma spawn_log : forall s c vals, log (handle_spawn s c vals) = log s.
+Proof. intros s c vals. unfold handle_spawn. destruct (gives_any c vals (owner s)); reflexivity. Qed.
+
+Lemma deliver_log : forall s sd t v, log (handle_deliver s sd t v) = log s.
+Proof. intros s sd t v. unfold handle_deliver. destruct (gives_any sd [v] (owner s)); reflexivity. Qed.
+
+Lemma spawn_dead : forall s c vals, dead (handle_spawn s c vals) = dead s.
+Proof. intros s c vals. unfold handle_spawn. destruct (gives_any c vals (owner s)); reflexivity. Qed.
+
+Lemma deliver_dead : forall s sd t v, dead (handle_deliver s sd t v) = dead s.
+Proof. intros s sd t v. unfold handle_deliver. destruct (gives_any sd [v] (owner s)); reflexivity. Qed.
+
+(* the processes whose termination e reports to the environment *)
+Definition reported (e : event) : list pid :=
+  match e with
+  | EResults done => done
+  | EWatchReport p => [p]
+  | _ => []
+  end.
 
 Lemma step_inv : forall s e, inv s -> inv (step s e).
 Proof.
-  intros s e H. destruct e as [p eff a|p res|c vals|sd t v|done|p|]; cbn [step].
+  intros s e H. destruct e as [p eff a|p res|c vals|sd t v|done|p|p|]; cbn [step].
   - rewrite effect_request_unfold. destruct (deniedb s p eff); [exact H|].
     destruct a as [res| |]; cbn zeta; try exact H. apply completion_inv. exact H.
   - unfold inv. cbn [owner]. apply completion_inv. exact H.
-  - unfold inv, handle_spawn. cbn [owner]. rewrite transfer_all_rids, keys_reassign_all. exact H.
-  - unfold inv, handle_deliver. cbn [owner]. rewrite transfer_rids, keys_reassign_all. exact H.
+  - unfold inv. rewrite spawn_owner, give_all_rids, keys_give_list. exact H.
+  - unfold inv. rewrite deliver_owner, give_rids, keys_give_list. exact H.
   - apply results_inv. exact H.
+  - unfold inv. cbn [owner]. apply (cleanup_inv s p H).
   - exact H.
   - exact H.
 Qed.
@@ -510,59 +531,70 @@ Lemma step_owner : forall s e r, inv s ->
       if deniedb s p eff then lookup r (owner s)
       else if memb r (issued_by e) then Some p else lookup r (owner s)
   | EComplete p res => if memb r (issued_by e) then Some p else lookup r (owner s)
-  | ESend _ t v => if memb r (transferred e) then moved (lookup r (owner s)) t else lookup r (owner s)
-  | ESpawn _ vals => if memb r (transferred e) then moved (lookup r (owner s)) (next_pid s) else lookup r (owner s)
-  | EResults done => match lookup r (owner s) with
-                     | Some q => if existsb (N.eqb q) done then None else Some q
-                     | None => None
-                     end
+  | ESend q t v =>
+      if memb r (transferred e) && owner_is q (lookup r (owner s)) then Some t else lookup r (owner s)
+  | ESpawn q vals =>
+      if memb r (transferred e) && owner_is q (lookup r (owner s)) then Some (next_pid s)
+      else lookup r (owner s)
+  | EResults _ | EWatchReport _ =>
+      match lookup r (owner s) with
+      | Some q => if existsb (N.eqb q) (reported e) then None else Some q
+      | None => None
+      end
   | ETerminate _ | EOther => lookup r (owner s)
   end.
 Proof.
-  intros s e r Hinv. destruct e as [p eff a|p res|c vals|sd t v|done|p|]; cbn [step]; try reflexivity.
+  intros s e r Hinv. destruct e as [p eff a|p res|c vals|sd t v|done|p|p|]; cbn [step reported]; try reflexivity.
   - rewrite effect_request_unfold. destruct (deniedb s p eff); [reflexivity|].
     destruct a as [res| |]; cbn zeta; cbn [issued_by memb existsb]; try reflexivity.
     rewrite completion_owner. reflexivity.
   - cbn [owner issued_by]. apply completion_owner.
-  - unfold handle_spawn. cbn [owner transferred]. rewrite transfer_all_rids. apply lookup_reassign_all.
-  - unfold handle_deliver. cbn [owner transferred]. rewrite transfer_rids. apply lookup_reassign_all.
+  - rewrite spawn_owner, give_all_rids. cbn [transferred]. apply lookup_give_list.
+  - rewrite deliver_owner, give_rids. cbn [transferred]. apply lookup_give_list.
   - apply lookup_results. exact Hinv.
+  - cbn [owner]. change (cleanup s p) with (handle_process_results s [p]). apply lookup_results. exact Hinv.
 Qed.
 
 Lemma skipn_app_exact : forall (A : Type) (a l : list A), skipn (length a) (a ++ l) = l.
 Proof. intros A a l. induction a as [|x t IH]; cbn [length app skipn]; [reflexivity|exact IH]. Qed.
 
-(* the backend calls made by one step *)
+(* the backend calls made by one step: an execute for a request that is not denied; the closes of
+   everything the reported processes own; nothing else *)
 Lemma step_calls : forall s e, inv s ->
   log (step s e) = log s ++ new_calls s e /\
   match e with
   | EEffect p eff a => new_calls s e = if deniedb s p eff then [] else [CExec p eff]
-  | EResults done => exists rs, new_calls s e = map CClose rs /\
-                                (forall r, In r rs <-> exists p, In p done /\ lookup r (owner s) = Some p) /\
-                                NoDup rs
-  | _ => new_calls s e = []
+  | _ => exists rs, new_calls s e = map CClose rs /\
+                    (forall r, In r rs <-> exists p, In p (reported e) /\ lookup r (owner s) = Some p) /\
+                    NoDup rs
   end.
 Proof.
   intros s e Hinv.
   assert (Hgen : forall l, log (step s e) = log s ++ l -> new_calls s e = l).
   { intros l Hl. unfold new_calls. rewrite Hl. apply skipn_app_exact. }
-  destruct e as [p eff a|p res|c vals|sd t v|done|p|].
+  assert (Hnone : reported e = [] -> log (step s e) = log s ->
+                  log (step s e) = log s ++ new_calls s e /\
+                  exists rs, new_calls s e = map CClose rs /\
+                    (forall r, In r rs <-> exists p, In p (reported e) /\ lookup r (owner s) = Some p) /\
+                    NoDup rs).
+  { intros Hr Hl. assert (Hl' : log (step s e) = log s ++ []) by (rewrite app_nil_r; exact Hl).
+    rewrite (Hgen _ Hl'). split; [exact Hl'|]. exists []. split; [reflexivity|]. split; [|constructor].
+    intro r. rewrite Hr. split; [intros []|intros [p [[] _]]]. }
+  destruct e as [p eff a|p res|c vals|sd t v|done|p|p|].
   - assert (Hl : log (step s (EEffect p eff a)) = log s ++ (if deniedb s p eff then [] else [CExec p eff])).
     { cbn [step]. rewrite effect_request_unfold. destruct (deniedb s p eff); [rewrite app_nil_r; reflexivity|].
-      destruct a as [res| |]; cbn zeta; reflexivity. }
+      destruct a as [res| |]; cbn zeta; try reflexivity. apply completion_log. }
     rewrite (Hgen _ Hl). split; [exact Hl|reflexivity].
-  - assert (Hl : log (step s (EComplete p res)) = log s ++ []) by (rewrite app_nil_r; reflexivity).
-    rewrite (Hgen _ Hl). split; [exact Hl|reflexivity].
-  - assert (Hl : log (step s (ESpawn c vals)) = log s ++ []) by (rewrite app_nil_r; reflexivity).
-    rewrite (Hgen _ Hl). split; [exact Hl|reflexivity].
-  - assert (Hl : log (step s (ESend sd t v)) = log s ++ []) by (rewrite app_nil_r; reflexivity).
-    rewrite (Hgen _ Hl). split; [exact Hl|reflexivity].
+  - apply Hnone; [reflexivity|]. cbn [step log]. apply completion_log.
+  - apply Hnone; [reflexivity|]. cbn [step]. apply spawn_log.
+  - apply Hnone; [reflexivity|]. cbn [step]. apply deliver_log.
   - destruct (results_log done s Hinv) as [rs [Hl [Hrs Hnd]]].
     cbn [step]. rewrite (Hgen _ Hl). split; [exact Hl|]. exists rs. split; [reflexivity|]. split; assumption.
-  - assert (Hl : log (step s (ETerminate p)) = log s ++ []) by (rewrite app_nil_r; reflexivity).
-    rewrite (Hgen _ Hl). split; [exact Hl|reflexivity].
-  - assert (Hl : log (step s EOther) = log s ++ []) by (rewrite app_nil_r; reflexivity).
-    rewrite (Hgen _ Hl). split; [exact Hl|reflexivity].
+  - destruct (results_log [p] s Hinv) as [rs [Hl [Hrs Hnd]]].
+    assert (Hl' : log (step s (EWatchReport p)) = log s ++ map CClose rs) by exact Hl.
+    rewrite (Hgen _ Hl'). split; [exact Hl'|]. exists rs. split; [reflexivity|]. split; assumption.
+  - apply Hnone; reflexivity.
+  - apply Hnone; reflexivity.
 Qed.
 
 Lemma log_extends : forall s e, inv s -> log (step s e) = log s ++ new_calls s e.
@@ -571,9 +603,12 @@ Proof. intros s e H. exact (proj1 (step_calls s e H)). Qed.
 Lemma step_dead : forall s e,
   dead (step s e) = match e with ETerminate p => p :: dead s | _ => dead s end.
 Proof.
-  intros s e. destruct e as [p eff a|p res|c vals|sd t v|done|p|]; cbn [step]; try reflexivity.
+  intros s e. destruct e as [p eff a|p res|c vals|sd t v|done|p|p|]; cbn [step]; try reflexivity.
   - rewrite effect_request_unfold. destruct (deniedb s p eff); [reflexivity|].
-    destruct a as [res| |]; reflexivity.
+    destruct a as [res| |]; cbn zeta; try reflexivity. rewrite completion_dead. reflexivity.
+  - cbn [dead]. rewrite completion_dead. reflexivity.
+  - apply spawn_dead.
+  - apply deliver_dead.
   - apply results_dead.
 Qed.
 
@@ -605,17 +640,6 @@ Proof. intros bad h e H. rewrite anyb_snoc in H. apply orb_false_elim in H. exac
 Lemma issued_snoc : forall h e, issued (h ++ [e]) = issued h ++ issued_by e.
 Proof. intros h e. unfold issued. rewrite flat_map_app. cbn [flat_map]. rewrite app_nil_r. reflexivity. Qed.
 
-Lemma f10_scan_snoc : forall p r h s rep giv e,
-  f10_scan p r s rep giv (h ++ [e]) =
-  (fst (f10_scan p r s rep giv h) || reportsb p e,
-   snd (f10_scan p r s rep giv h) ||
-   (fst (f10_scan p r s rep giv h) && givesb (fold_left step h s) e p r)).
-Proof.
-  intros p r h. induction h as [|x t IH]; intros s rep giv e; cbn [app f10_scan fold_left fst snd].
-  - reflexivity.
-  - apply IH.
-Qed.
-
 (* ------------------------------------------------------------------ single owner *)
 
 Theorem owner_map_is_function : forall h r p q,
@@ -635,37 +659,43 @@ Proof.
     apply carries_iff; exact H.
 Qed.
 
+Lemma owner_is_true : forall g o, owner_is g o = true <-> o = Some g.
+Proof.
+  intros g o. unfold owner_is. destruct o as [q|]; [|split; discriminate].
+  rewrite N.eqb_eq. split; [intros ->; reflexivity|intro H; injection H as ->; reflexivity].
+Qed.
+
+(* a send moves exactly the carried resources that the SENDER owns, to the target *)
 Theorem owner_after_send : forall h sender target v r,
-  (carries r v -> lookup r (owner (run h)) <> None ->
+  (carries r v -> lookup r (owner (run h)) = Some sender ->
      lookup r (owner (run (h ++ [ESend sender target v]))) = Some target) /\
-  (carries r v -> lookup r (owner (run h)) = None ->
-     lookup r (owner (run (h ++ [ESend sender target v]))) = None) /\
+  (lookup r (owner (run h)) <> Some sender ->
+     lookup r (owner (run (h ++ [ESend sender target v]))) = lookup r (owner (run h))) /\
   (~ carries r v -> lookup r (owner (run (h ++ [ESend sender target v]))) = lookup r (owner (run h))).
 Proof.
-  intros h sd t v r. rewrite run_snoc, (step_owner _ _ _ (run_inv h)). cbn [transferred].
-  destruct (memb r (rids_of v)) eqn:E.
-  - apply memb_rids_carries in E. unfold moved. repeat split.
-    + intros _ Hp. destruct (lookup r (owner (run h))); [reflexivity|congruence].
-    + intros _ Hn. rewrite Hn. reflexivity.
-    + intro H. contradiction.
-  - repeat split; try reflexivity; intro H; apply memb_rids_carries in H; congruence.
+  intros h sd t v r. rewrite run_snoc, (step_owner _ _ _ (run_inv h)). cbn [transferred]. repeat split.
+  - intros Hc Ho. apply memb_rids_carries in Hc. rewrite Hc, Ho. cbn [owner_is andb]. rewrite N.eqb_refl. reflexivity.
+  - intro Hn. destruct (owner_is sd (lookup r (owner (run h)))) eqn:E.
+    + apply owner_is_true in E. contradiction.
+    + rewrite andb_false_r. reflexivity.
+  - intro Hn. destruct (memb r (rids_of v)) eqn:E; [apply memb_rids_carries in E; contradiction|reflexivity].
 Qed.
 
 Theorem owner_after_spawn : forall h caller vals r,
-  ((exists v, In v vals /\ carries r v) -> lookup r (owner (run h)) <> None ->
+  ((exists v, In v vals /\ carries r v) -> lookup r (owner (run h)) = Some caller ->
      lookup r (owner (run (h ++ [ESpawn caller vals]))) = Some (next_pid (run h))) /\
-  ((exists v, In v vals /\ carries r v) -> lookup r (owner (run h)) = None ->
-     lookup r (owner (run (h ++ [ESpawn caller vals]))) = None) /\
+  (lookup r (owner (run h)) <> Some caller ->
+     lookup r (owner (run (h ++ [ESpawn caller vals]))) = lookup r (owner (run h))) /\
   ((forall v, In v vals -> ~ carries r v) ->
      lookup r (owner (run (h ++ [ESpawn caller vals]))) = lookup r (owner (run h))).
 Proof.
-  intros h c vals r. rewrite run_snoc, (step_owner _ _ _ (run_inv h)). cbn [transferred].
-  destruct (memb r (flat_map rids_of vals)) eqn:E.
-  - apply memb_flat_carries in E. unfold moved. repeat split.
-    + intros _ Hp. destruct (lookup r (owner (run h))); [reflexivity|congruence].
-    + intros _ Hn. rewrite Hn. reflexivity.
-    + intro H. destruct E as [v [Hin Hc]]. exfalso. exact (H v Hin Hc).
-  - repeat split; try reflexivity; intro H; apply memb_flat_carries in H; congruence.
+  intros h c vals r. rewrite run_snoc, (step_owner _ _ _ (run_inv h)). cbn [transferred]. repeat split.
+  - intros Hc Ho. apply memb_flat_carries in Hc. rewrite Hc, Ho. cbn [owner_is andb]. rewrite N.eqb_refl. reflexivity.
+  - intro Hn. destruct (owner_is c (lookup r (owner (run h)))) eqn:E.
+    + apply owner_is_true in E. contradiction.
+    + rewrite andb_false_r. reflexivity.
+  - intro Hn. destruct (memb r (flat_map rids_of vals)) eqn:E; [|reflexivity].
+    apply memb_flat_carries in E. destruct E as [v [Hin Hc]]. exfalso. exact (Hn v Hin Hc).
 Qed.
 
 Theorem creator_is_first_owner : forall h p n r,
@@ -679,64 +709,83 @@ Qed.
 (* e, handled in state s, makes p the owner of r *)
 Definition gives (s : state) (e : event) (p : pid) (r : rid) : Prop :=
   match e with
-  | ESend _ t v => t = p /\ carries r v
-  | ESpawn _ vals => next_pid s = p /\ exists v, In v vals /\ carries r v
+  | ESend q t v => t = p /\ carries r v /\ lookup r (owner s) = Some q
+  | ESpawn q vals => next_pid s = p /\ (exists v, In v vals /\ carries r v) /\ lookup r (owner s) = Some q
   | EEffect q _ _ | EComplete q _ => q = p /\ In r (issued_by e)
   | _ => False
   end.
-
-Lemma givesb_gives : forall s e p r, givesb s e p r = true <-> gives s e p r.
-Proof.
-  intros s e p r. destruct e as [q eff a|q res|c vals|sd t v|done|q|]; cbn [givesb gives transferred];
-    try (split; [discriminate|intros []]); rewrite andb_true_iff, N.eqb_eq.
-  - rewrite memb_in. tauto.
-  - rewrite memb_in. tauto.
-  - rewrite memb_flat_carries. tauto.
-  - rewrite memb_rids_carries. tauto.
-Qed.
 
 Lemma step_gives : forall s e p r, inv s ->
   lookup r (owner (step s e)) = Some p -> lookup r (owner s) <> Some p -> gives s e p r.
 Proof.
   intros s e p r Hinv Hnew Hold. rewrite (step_owner _ _ _ Hinv) in Hnew.
-  destruct e as [q eff a|q res|c vals|sd t v|done|q|]; cbn [gives]; try contradiction.
+  destruct e as [q eff a|q res|c vals|sd t v|done|q|q|]; cbn [gives]; try contradiction.
   - destruct (deniedb s q eff); [contradiction|].
     destruct (memb r (issued_by (EEffect q eff a))) eqn:E; [|contradiction].
     apply memb_in in E. injection Hnew as ->. split; [reflexivity|exact E].
   - destruct (memb r (issued_by (EComplete q res))) eqn:E; [|contradiction].
     apply memb_in in E. injection Hnew as ->. split; [reflexivity|exact E].
-  - destruct (memb r (transferred (ESpawn c vals))) eqn:E; [|contradiction].
-    cbn [transferred] in E. apply memb_flat_carries in E. unfold moved in Hnew.
-    destruct (lookup r (owner s)); [|discriminate]. injection Hnew as <-. split; [reflexivity|exact E].
-  - destruct (memb r (transferred (ESend sd t v))) eqn:E; [|contradiction].
-    cbn [transferred] in E. apply memb_rids_carries in E. unfold moved in Hnew.
-    destruct (lookup r (owner s)); [|discriminate]. injection Hnew as ->. split; [reflexivity|exact E].
+  - destruct (memb r (transferred (ESpawn c vals)) && owner_is c (lookup r (owner s))) eqn:E; [|contradiction].
+    apply andb_true_iff in E. destruct E as [E1 E2]. cbn [transferred] in E1.
+    apply memb_flat_carries in E1. apply owner_is_true in E2. injection Hnew as <-. repeat split; assumption.
+  - destruct (memb r (transferred (ESend sd t v)) && owner_is sd (lookup r (owner s))) eqn:E; [|contradiction].
+    apply andb_true_iff in E. destruct E as [E1 E2]. cbn [transferred] in E1.
+    apply memb_rids_carries in E1. apply owner_is_true in E2. injection Hnew as ->. repeat split; assumption.
   - destruct (lookup r (owner s)) as [o|]; [|discriminate].
-    destruct (existsb (N.eqb o) done); [discriminate|]. contradiction.
+    destruct (existsb (N.eqb o) (reported (EResults done))); [discriminate|]. contradiction.
+  - destruct (lookup r (owner s)) as [o|]; [|discriminate].
+    destruct (existsb (N.eqb o) (reported (EWatchReport q))); [discriminate|]. contradiction.
 Qed.
 
 Theorem ownership_changes_only_by : forall h e r,
   lookup r (owner (run (h ++ [e]))) <> lookup r (owner (run h)) ->
   match lookup r (owner (run (h ++ [e]))) with
   | Some p => gives (run h) e p r
-  | None => exists done o, e = EResults done /\ lookup r (owner (run h)) = Some o /\ In o done
+  | None => exists o, lookup r (owner (run h)) = Some o /\ In o (reported e)
   end.
 Proof.
   intros h e r Hne. rewrite run_snoc in *. pose proof (run_inv h) as Hinv.
   destruct (lookup r (owner (step (run h) e))) as [p|] eqn:Enew.
   - apply (step_gives _ _ _ _ Hinv Enew). congruence.
   - rewrite (step_owner _ _ _ Hinv) in Enew.
-    destruct e as [q eff a|q res|c vals|sd t v|done|q|]; try congruence.
+    destruct e as [q eff a|q res|c vals|sd t v|done|q|q|]; try congruence.
     + destruct (deniedb (run h) q eff); [congruence|].
       destruct (memb r (issued_by (EEffect q eff a))); [discriminate|congruence].
     + destruct (memb r (issued_by (EComplete q res))); [discriminate|congruence].
-    + destruct (memb r (transferred (ESpawn c vals))); [|congruence].
-      unfold moved in Enew. destruct (lookup r (owner (run h))); [discriminate|congruence].
-    + destruct (memb r (transferred (ESend sd t v))); [|congruence].
-      unfold moved in Enew. destruct (lookup r (owner (run h))); [discriminate|congruence].
+    + destruct (memb r (transferred (ESpawn c vals)) && owner_is c (lookup r (owner (run h)))); [discriminate|congruence].
+    + destruct (memb r (transferred (ESend sd t v)) && owner_is sd (lookup r (owner (run h)))); [discriminate|congruence].
     + destruct (lookup r (owner (run h))) as [o|] eqn:Eo; [|congruence].
-      destruct (existsb (N.eqb o) done) eqn:Ex; [|congruence].
-      apply existsb_eqb_in in Ex. exists done, o. repeat split; [exact Ex].
+      destruct (existsb (N.eqb o) (reported (EResults done))) eqn:Ex; [|congruence].
+      apply existsb_eqb_in in Ex. exists o. split; [reflexivity|exact Ex].
+    + destruct (lookup r (owner (run h))) as [o|] eqn:Eo; [|congruence].
+      destruct (existsb (N.eqb o) (reported (EWatchReport q))) eqn:Ex; [|congruence].
+      apply existsb_eqb_in in Ex. exists o. split; [reflexivity|exact Ex].
+Qed.
+
+(* F49 (repaired): only its owner can give a resource away — a resource leaves its owner only by
+   the owner's own send/spawn, by the owner's cleanup, or by the backend issuing the id again *)
+Definition initiates (e : event) (q : pid) (r : rid) : Prop :=
+  initiator e = Some q /\ In r (transferred e).
+
+Theorem transfer_only_by_owner : forall h e r o,
+  lookup r (owner (run h)) = Some o -> lookup r (owner (run (h ++ [e]))) <> Some o ->
+  initiates e o r \/ In o (reported e) \/ In r (issued_by e).
+Proof.
+  intros h e r o Hold Hnew. rewrite run_snoc, (step_owner _ _ _ (run_inv h)) in Hnew.
+  destruct e as [q eff a|q res|c vals|sd t v|done|q|q|]; try congruence.
+  - destruct (deniedb (run h) q eff); [congruence|].
+    destruct (memb r (issued_by (EEffect q eff a))) eqn:E; [|congruence]. right. right. apply memb_in. exact E.
+  - destruct (memb r (issued_by (EComplete q res))) eqn:E; [|congruence]. right. right. apply memb_in. exact E.
+  - destruct (memb r (transferred (ESpawn c vals)) && owner_is c (lookup r (owner (run h)))) eqn:E; [|congruence].
+    apply andb_true_iff in E. destruct E as [E1 E2]. apply owner_is_true in E2. left.
+    assert (o = c) by congruence. subst c. split; [reflexivity|apply memb_in; exact E1].
+  - destruct (memb r (transferred (ESend sd t v)) && owner_is sd (lookup r (owner (run h)))) eqn:E; [|congruence].
+    apply andb_true_iff in E. destruct E as [E1 E2]. apply owner_is_true in E2. left.
+    assert (o = sd) by congruence. subst sd. split; [reflexivity|apply memb_in; exact E1].
+  - rewrite Hold in Hnew. destruct (existsb (N.eqb o) (reported (EResults done))) eqn:Ex; [|congruence].
+    right. left. apply existsb_eqb_in. exact Ex.
+  - rewrite Hold in Hnew. destruct (existsb (N.eqb o) (reported (EWatchReport q))) eqn:Ex; [|congruence].
+    right. left. apply existsb_eqb_in. exact Ex.
 Qed.
 
 (* ------------------------------------------------------------------ only the owner reaches the backend *)
@@ -745,11 +794,11 @@ Lemma exec_in_calls : forall s e p eff, inv s -> In (CExec p eff) (new_calls s e
   exists a, e = EEffect p eff a /\ deniedb s p eff = false.
 Proof.
   intros s e p eff Hinv Hin. destruct (step_calls s e Hinv) as [_ Hc].
-  destruct e as [q eff' a|q res|c vals|sd t v|done|q|]; try (rewrite Hc in Hin; destruct Hin).
-  - rewrite Hc in Hin. destruct (deniedb s q eff') eqn:E; [destruct Hin|].
-    destruct Hin as [H|[]]. injection H as -> ->. exists a. split; [reflexivity|exact E].
-  - destruct Hc as [rs [Hc _]]. rewrite Hc in Hin. apply in_map_iff in Hin.
-    destruct Hin as [x [Hx _]]. discriminate.
+  destruct e as [q eff' a|q res|c vals|sd t v|done|q|q|];
+    try (destruct Hc as [rs [Hc _]]; rewrite Hc in Hin; apply in_map_iff in Hin;
+         destruct Hin as [x [Hx _]]; discriminate).
+  rewrite Hc in Hin. destruct (deniedb s q eff') eqn:E; [destruct Hin|].
+  destruct Hin as [H|[]]. injection H as -> ->. exists a. split; [reflexivity|exact E].
 Qed.
 
 Theorem non_owner_never_reaches_backend : forall h e p eff r o,
@@ -789,43 +838,53 @@ Qed.
 (* ------------------------------------------------------------------ close_resource *)
 
 Lemma close_in_calls : forall s e r, inv s -> In (CClose r) (new_calls s e) ->
-  exists done p, e = EResults done /\ In p done /\ lookup r (owner s) = Some p.
+  exists p, In p (reported e) /\ lookup r (owner s) = Some p.
 Proof.
   intros s e r Hinv Hin. destruct (step_calls s e Hinv) as [_ Hc].
-  destruct e as [q eff' a|q res|c vals|sd t v|done|q|]; try (rewrite Hc in Hin; destruct Hin).
-  - rewrite Hc in Hin. destruct (deniedb s q eff'); [destruct Hin|]. destruct Hin as [H|[]]. discriminate.
-  - destruct Hc as [rs [Hc [Hrs _]]]. rewrite Hc in Hin. apply in_map_iff in Hin.
-    destruct Hin as [x [Hx Hin]]. injection Hx as ->. apply Hrs in Hin. destruct Hin as [p [Hp Hl]].
-    exists done, p. repeat split; assumption.
+  destruct e as [q eff' a|q res|c vals|sd t v|done|q|q|];
+    try (destruct Hc as [rs [Hc [Hrs _]]]; rewrite Hc in Hin; apply in_map_iff in Hin;
+         destruct Hin as [x [Hx Hin]]; injection Hx as ->; apply Hrs in Hin; exact Hin).
+  rewrite Hc in Hin. destruct (deniedb s q eff'); [destruct Hin|]. destruct Hin as [H|[]]. discriminate.
 Qed.
 
 Theorem close_only_in_cleanup_of_owner : forall h e r,
   In (CClose r) (new_calls (run h) e) ->
-  exists done p, e = EResults done /\ In p done /\ lookup r (owner (run h)) = Some p.
+  exists p, In p (reported e) /\ lookup r (owner (run h)) = Some p.
 Proof. intros h e r. apply close_in_calls. apply run_inv. Qed.
 
 Theorem not_closed_while_owner_alive : forall h e r,
   reports_only_terminated (h ++ [e]) -> In (CClose r) (new_calls (run h) e) ->
   exists p, lookup r (owner (run h)) = Some p /\ In p (dead (run h)).
 Proof.
-  intros h e r Hwf Hin. destruct (close_only_in_cleanup_of_owner h e r Hin) as [done [p [-> [Hp Hl]]]].
+  intros h e r Hwf Hin. destruct (close_only_in_cleanup_of_owner h e r Hin) as [p [Hp Hl]].
   exists p. split; [exact Hl|]. apply anyb_snoc_false in Hwf. destruct Hwf as [_ Hok].
-  cbn [early_reportb] in Hok. apply negb_false_iff in Hok. rewrite forallb_forall in Hok.
-  apply memb_in. exact (Hok p Hp).
+  destruct e as [q eff' a|q res|c vals|sd t v|done|q|q|]; try destruct Hp.
+  - cbn [early_reportb] in Hok. apply negb_false_iff in Hok. rewrite forallb_forall in Hok.
+    apply memb_in. exact (Hok p Hp).
+  - cbn [early_reportb] in Hok. apply negb_false_iff in Hok. subst q. apply memb_in. exact Hok.
+  - destruct H.
 Qed.
 
-Theorem cleanup_closes_everything : forall h done p r,
-  In p done -> lookup r (owner (run h)) = Some p ->
-  In (CClose r) (new_calls (run h) (EResults done)) /\
-  forall r', lookup r' (owner (run (h ++ [EResults done]))) <> Some p.
+Theorem cleanup_closes_everything : forall h e p r,
+  In p (reported e) -> lookup r (owner (run h)) = Some p ->
+  In (CClose r) (new_calls (run h) e) /\
+  forall r', lookup r' (owner (run (h ++ [e]))) <> Some p.
 Proof.
-  intros h done p r Hp Hl. pose proof (run_inv h) as Hinv. split.
-  - destruct (step_calls (run h) (EResults done) Hinv) as [_ [rs [Hc [Hrs _]]]].
-    rewrite Hc. apply in_map. apply Hrs. exists p. split; assumption.
+  intros h e p r Hp Hl. pose proof (run_inv h) as Hinv. split.
+  - destruct (step_calls (run h) e Hinv) as [_ Hc].
+    destruct e as [q eff' a|q res|c vals|sd t v|done|q|q|]; try destruct Hp;
+      destruct Hc as [rs [Hc [Hrs _]]]; rewrite Hc; apply in_map; apply Hrs; exists p; split; try assumption.
+    + left. assumption.
+    + destruct H.
   - intro r'. rewrite run_snoc, (step_owner _ _ _ Hinv).
-    destruct (lookup r' (owner (run h))) as [o|]; [|discriminate].
-    destruct (existsb (N.eqb o) done) eqn:Ex; [discriminate|].
-    intro H. injection H as ->. apply existsb_eqb_in in Hp. congruence.
+    destruct e as [q eff' a|q res|c vals|sd t v|done|q|q|]; try destruct Hp.
+    + destruct (lookup r' (owner (run h))) as [o|]; [|discriminate].
+      destruct (existsb (N.eqb o) (reported (EResults done))) eqn:Ex; [discriminate|].
+      intro H'. injection H' as ->. cbn [reported] in Ex, Hp. apply existsb_eqb_in in Hp. congruence.
+    + subst q. destruct (lookup r' (owner (run h))) as [o|]; [|discriminate].
+      destruct (existsb (N.eqb o) (reported (EWatchReport p))) eqn:Ex; [discriminate|].
+      intro H'. injection H' as ->. cbn [reported existsb] in Ex. rewrite N.eqb_refl in Ex. discriminate.
+    + destruct H.
 Qed.
 
 (* ------------------------------------------------------------------ closed at most once *)
@@ -839,18 +898,14 @@ Proof. intro rs. induction rs as [|r t IH]; cbn; [reflexivity|]. f_equal. exact 
 (* what one step adds to the closed ids *)
 Lemma step_closes : forall s e, inv s ->
   exists rs, closes (log (step s e)) = closes (log s) ++ rs /\ NoDup rs /\
-    forall r, In r rs <-> exists done p, e = EResults done /\ In p done /\ lookup r (owner s) = Some p.
+    forall r, In r rs <-> exists p, In p (reported e) /\ lookup r (owner s) = Some p.
 Proof.
   intros s e Hinv. destruct (step_calls s e Hinv) as [Hlog Hc]. rewrite Hlog, closes_app.
-  destruct e as [q eff a|q res|c vals|sd t v|done|q|];
-    try (rewrite Hc; exists []; split; [reflexivity|]; split; [constructor|];
-         intro r; split; [intros []|intros [d [p [H _]]]; discriminate]).
-  - rewrite Hc. exists []. split; [destruct (deniedb s q eff); reflexivity|]. split; [constructor|].
-    intro r. split; [intros []|intros [d [p [H _]]]; discriminate].
-  - destruct Hc as [rs [Hc [Hrs Hnd]]]. rewrite Hc, closes_map_close. exists rs. split; [reflexivity|].
-    split; [exact Hnd|]. intro r. rewrite Hrs. split.
-    + intros [p [Hp Hl]]. exists done, p. repeat split; assumption.
-    + intros [d [p [Hd [Hp Hl]]]]. injection Hd as <-. exists p. split; assumption.
+  destruct e as [q eff a|q res|c vals|sd t v|done|q|q|];
+    try (destruct Hc as [rs [Hc [Hrs Hnd]]]; rewrite Hc, closes_map_close; exists rs;
+         split; [reflexivity|]; split; assumption).
+  rewrite Hc. exists []. split; [destruct (deniedb s q eff); reflexivity|]. split; [constructor|].
+  intro r. split; [intros []|intros [p [[] _]]].
 Qed.
 
 Record cinv (I : list rid) (s : state) : Prop := mk_cinv {
@@ -865,22 +920,19 @@ Record cinv (I : list rid) (s : state) : Prop := mk_cinv {
 Lemma step_owner_dom : forall s e r p, inv s ->
   lookup r (owner (step s e)) = Some p -> lookup r (owner s) <> None \/ In r (issued_by e).
 Proof.
-  intros s e r p Hinv Hnew. rewrite (step_owner _ _ _ Hinv) in Hnew.
-  destruct e as [q eff a|q res|c vals|sd t v|done|q|].
-  - destruct (deniedb s q eff); [left; congruence|].
-    destruct (memb r (issued_by (EEffect q eff a))) eqn:E; [right; apply memb_in; exact E|left; congruence].
-  - destruct (memb r (issued_by (EComplete q res))) eqn:E; [right; apply memb_in; exact E|left; congruence].
-  - left. destruct (memb r (transferred (ESpawn c vals))); [|congruence].
-    unfold moved in Hnew. destruct (lookup r (owner s)); [discriminate|discriminate].
-  - left. destruct (memb r (transferred (ESend sd t v))); [|congruence].
-    unfold moved in Hnew. destruct (lookup r (owner s)); [discriminate|discriminate].
-  - left. destruct (lookup r (owner s)); [discriminate|discriminate].
-  - left. congruence.
-  - left. congruence.
+  intros s e r p Hinv Hnew.
+  destruct (lookup r (owner s)) as [o|] eqn:Eo; [left; discriminate|].
+  assert (Hg : lookup r (owner s) <> Some p) by congruence.
+  pose proof (step_gives s e p r Hinv Hnew Hg) as G.
+  destruct e as [q eff a|q res|c vals|sd t v|done|q|q|]; cbn [gives] in G; try contradiction.
+  - right. exact (proj2 G).
+  - right. exact (proj2 G).
+  - destruct G as [_ [_ G]]. congruence.
+  - destruct G as [_ [_ G]]. congruence.
 Qed.
 
-Lemma issued_by_no_results : forall e r, In r (issued_by e) -> forall done, e <> EResults done.
-Proof. intros e r H done He. subst e. destruct H. Qed.
+Lemma issued_no_report : forall e r, In r (issued_by e) -> reported e = [].
+Proof. intros e r H. destruct e; try reflexivity; destruct H. Qed.
 
 Lemma cinv_step : forall I s e, inv s -> cinv I s -> NoDup (I ++ issued_by e) ->
   cinv (I ++ issued_by e) (step s e).
@@ -898,18 +950,20 @@ Proof.
     left. destruct (lookup r (owner s)) as [o|] eqn:E; [exact (Hown r o E)|congruence].
   - intros r Hr. rewrite Hcs in Hr. apply in_or_app. left. apply in_app_or in Hr. destruct Hr as [Hr|Hr].
     + exact (Hcl r Hr).
-    + apply Hrs in Hr. destruct Hr as [d [p [_ [_ Hl]]]]. exact (Hown r p Hl).
+    + apply Hrs in Hr. destruct Hr as [p [_ Hl]]. exact (Hown r p Hl).
   - intros r p Hl Hr. rewrite Hcs in Hr. apply in_app_or in Hr.
     destruct (step_owner_dom s e r p Hinv Hl) as [H|H].
     + destruct (lookup r (owner s)) as [o|] eqn:E; [|congruence]. destruct Hr as [Hr|Hr].
       * exact (Hdisj r o E Hr).
-      * apply Hrs in Hr. destruct Hr as [d [q [-> [Hq Hlq]]]].
-        rewrite (step_owner _ _ _ Hinv), Hlq in Hl. apply existsb_eqb_in in Hq. rewrite Hq in Hl. discriminate.
+      * apply Hrs in Hr. destruct Hr as [q [Hq Hlq]].
+        rewrite (step_owner _ _ _ Hinv) in Hl. apply existsb_eqb_in in Hq.
+        destruct e as [q' eff a|q' res|c vals|sd t v|done|q'|q'|]; try (cbn [reported existsb] in Hq; discriminate);
+          rewrite Hlq, Hq in Hl; discriminate.
     + destruct Hr as [Hr|Hr].
       * exact (Hfr r H (Hcl r Hr)).
-      * apply Hrs in Hr. destruct Hr as [d [q [He _]]]. exact (issued_by_no_results e r H d He).
+      * apply Hrs in Hr. destruct Hr as [q [Hq _]]. rewrite (issued_no_report e r H) in Hq. destruct Hq.
   - rewrite Hcs. apply nodup_app; [exact Hnd|exact Hrsnd|]. intros r H1 H2.
-    apply Hrs in H2. destruct H2 as [d [q [_ [_ Hl]]]]. exact (Hdisj r q Hl H1).
+    apply Hrs in H2. destruct H2 as [q [_ Hl]]. exact (Hdisj r q Hl H1).
 Qed.
 
 Lemma nodup_app_l : forall (a b : list rid), NoDup (a ++ b) -> NoDup a.
@@ -930,91 +984,93 @@ Qed.
 Theorem closed_at_most_once : forall h, backend_fresh h -> NoDup (closes (log (run h))).
 Proof. intros h Hf. exact (ci_nodup _ _ (reachable_cinv h Hf)). Qed.
 
-(* ------------------------------------------------------------------ closed after termination *)
+(* ------------------------------------------------------------------ closed after termination
+   F10 (repaired): whoever owns a resource is watched, so the environment hears of its termination *)
 
-Lemma reported_not_owner : forall h p r,
-  fst (f10_scan p r init false false h) = true -> snd (f10_scan p r init false false h) = false ->
-  lookup r (owner (run h)) <> Some p.
+Definition owners_watched (s : state) : Prop :=
+  forall r p, lookup r (owner s) = Some p -> In p (watched s).
+
+Lemma in_remove_pid_neq : forall p q l, q <> p -> In q l -> In q (remove_pid p l).
 Proof.
-  intros h p r. induction h as [|e h IH] using rev_ind; intros Hrep Hgiv.
-  - cbn in Hrep. discriminate.
-  - rewrite f10_scan_snoc in Hrep, Hgiv. cbn [fst snd] in Hrep, Hgiv. fold (run h) in Hgiv.
-    apply orb_false_elim in Hgiv. destruct Hgiv as [Hg1 Hg2]. rewrite run_snoc.
-    pose proof (run_inv h) as Hinv.
-    destruct (fst (f10_scan p r init false false h)) eqn:Erep.
-    + cbn [andb] in Hg2. specialize (IH eq_refl Hg1). intro Hnew.
-      pose proof (step_gives _ _ _ _ Hinv Hnew IH) as Hgives. apply givesb_gives in Hgives. congruence.
-    + cbn [orb] in Hrep. destruct e as [q eff a|q res|c vals|sd t v|done|q|]; try discriminate.
-      cbn [reportsb] in Hrep. apply memb_in in Hrep.
-      rewrite (step_owner _ _ _ Hinv). destruct (lookup r (owner (run h))) as [o|]; [|discriminate].
-      destruct (existsb (N.eqb o) done) eqn:Ex; [discriminate|]. intro H. injection H as ->.
-      apply existsb_eqb_in in Hrep. congruence.
+  intros p q l Hne. induction l as [|x t IH]; cbn [remove_pid In]; [tauto|].
+  intros [->|H].
+  - destruct (N.eqb p q) eqn:E; [apply N.eqb_eq in E; congruence|left; reflexivity].
+  - destruct (N.eqb p x); [exact H|right; exact (IH H)].
 Qed.
 
+Lemma results_watched : forall done s, watched (handle_process_results s done) = watched s.
+Proof.
+  intros done. induction done as [|p t IH]; intro s; cbn [handle_process_results fold_left]; [reflexivity|].
+  unfold handle_process_results in IH. rewrite IH. reflexivity.
+Qed.
+
+Lemma gives_any_intro : forall g vals m r,
+  In r (flat_map rids_of vals) -> lookup r m = Some g -> gives_any g vals m = true.
+Proof.
+  intros g vals m r Hin Hl. unfold gives_any. apply existsb_exists. exists r. split; [exact Hin|].
+  rewrite Hl. cbn [owner_is]. apply N.eqb_refl.
+Qed.
+
+Lemma step_owners_watched : forall s e, inv s -> owners_watched s -> owners_watched (step s e).
+Proof.
+  intros s e Hinv Hw r p Hl.
+  destruct e as [q eff a|q res|c vals|sd t v|done|q|q|].
+  - cbn [step] in *. rewrite effect_request_unfold in *. destruct (deniedb s q eff); [exact (Hw r p Hl)|].
+    destruct a as [res| |]; cbn zeta in *; try exact (Hw r p Hl).
+    rewrite completion_owner in Hl. rewrite completion_watched. cbn [owner watched] in *.
+    destruct res as [[r'| | |]|]; cbn [result_rid memb existsb map orb] in *; try exact (Hw r p Hl).
+    rewrite N.eqb_refl. destruct (N.eqb r r'); [injection Hl as <-; left; reflexivity|right; exact (Hw r p Hl)].
+  - cbn [step owner watched] in *. rewrite completion_owner in Hl. rewrite completion_watched.
+    destruct res as [[r'| | |]|]; cbn [result_rid memb existsb map orb] in *; try exact (Hw r p Hl).
+    rewrite N.eqb_refl. destruct (N.eqb r r'); [injection Hl as <-; left; reflexivity|right; exact (Hw r p Hl)].
+  - pose proof Hl as Hl'. rewrite (step_owner _ _ _ Hinv) in Hl'. cbn [step]. unfold handle_spawn.
+    destruct (memb r (transferred (ESpawn c vals)) && owner_is c (lookup r (owner s))) eqn:E.
+    + apply andb_true_iff in E. destruct E as [E1 E2]. apply memb_in in E1. apply owner_is_true in E2.
+      cbn [transferred] in E1. rewrite (gives_any_intro c vals (owner s) r E1 E2).
+      injection Hl' as <-. left. reflexivity.
+    + destruct (gives_any c vals (owner s)); cbn [watched watch]; [right|]; exact (Hw r p Hl').
+  - pose proof Hl as Hl'. rewrite (step_owner _ _ _ Hinv) in Hl'. cbn [step]. unfold handle_deliver.
+    destruct (memb r (transferred (ESend sd t v)) && owner_is sd (lookup r (owner s))) eqn:E.
+    + apply andb_true_iff in E. destruct E as [E1 E2]. apply memb_in in E1. apply owner_is_true in E2.
+      cbn [transferred] in E1.
+      assert (E1' : In r (flat_map rids_of [v])) by (cbn [flat_map]; rewrite app_nil_r; exact E1).
+      rewrite (gives_any_intro sd [v] (owner s) r E1' E2). injection Hl' as <-. left. reflexivity.
+    + destruct (gives_any sd [v] (owner s)); cbn [watched watch]; [right|]; exact (Hw r p Hl').
+  - rewrite (step_owner _ _ _ Hinv) in Hl. cbn [step]. rewrite results_watched.
+    destruct (lookup r (owner s)) as [o|] eqn:Eo; [|discriminate].
+    destruct (existsb (N.eqb o) (reported (EResults done))); [discriminate|]. injection Hl as <-. exact (Hw r o Eo).
+  - rewrite (step_owner _ _ _ Hinv) in Hl. cbn [step watched].
+    destruct (lookup r (owner s)) as [o|] eqn:Eo; [|discriminate].
+    destruct (existsb (N.eqb o) (reported (EWatchReport q))) eqn:Ex; [discriminate|]. injection Hl as <-.
+    cbn [reported existsb] in Ex. rewrite orb_false_r in Ex. apply N.eqb_neq in Ex.
+    apply in_remove_pid_neq; [exact Ex|]. exact (Hw r o Eo).
+  - exact (Hw r p Hl).
+  - exact (Hw r p Hl).
+Qed.
+
+Theorem owners_are_watched : forall h r p,
+  lookup r (owner (run h)) = Some p -> In p (watched (run h)).
+Proof.
+  intro h. induction h as [|e h IH] using rev_ind.
+  - intros r p H. cbn in H. discriminate.
+  - rewrite run_snoc. apply step_owners_watched; [apply run_inv|exact IH].
+Qed.
+
+(* safety form of "every resource owned at termination is eventually closed": in a quiescent state
+   (no completion outstanding, no watched process terminated and unreported) no resource is owned by
+   a terminated process *)
 Theorem closed_after_termination : forall h p r,
-  ~ KnownF10 h p r -> In p (dead (run h)) -> lookup r (owner (run h)) <> Some p.
+  quiescent (run h) -> In p (dead (run h)) -> lookup r (owner (run h)) <> Some p.
 Proof.
-  intros h p r Hk _. apply reported_not_owner.
-  - destruct (fst (f10_scan p r init false false h)) eqn:E; [reflexivity|]. exfalso. apply Hk. left. exact E.
-  - destruct (snd (f10_scan p r init false false h)) eqn:E; [|reflexivity]. exfalso. apply Hk. right. exact E.
+  intros h p r [_ Hq] Hd Hl. exact (Hq p (owners_are_watched h r p Hl) Hd).
 Qed.
 
-(* ------------------------------------------------------------------ who may transfer (F49) *)
-
-Definition initiates (e : event) (q : pid) (r : rid) : Prop :=
-  initiator e = Some q /\ In r (transferred e).
-
-Theorem ownership_leaves_only_by_owner_action : forall h e r o,
-  ~ KnownF49 (h ++ [e]) ->
-  lookup r (owner (run h)) = Some o -> lookup r (owner (run (h ++ [e]))) <> Some o ->
-  initiates e o r \/ (exists done, e = EResults done /\ In o done) \/ In r (issued_by e).
-Proof.
-  intros h e r o Hk Hold Hnew. rewrite run_snoc, (step_owner _ _ _ (run_inv h)) in Hnew.
-  assert (Hke : foreign_transferb (run h) e = false).
-  { unfold KnownF49 in Hk. rewrite anyb_snoc in Hk. fold (run h) in Hk.
-    destruct (foreign_transferb (run h) e); [exfalso; apply Hk; apply orb_true_r|reflexivity]. }
-  assert (Htr : forall q, initiator e = Some q -> memb r (transferred e) = true -> o = q).
-  { intros q Hq Hm. unfold foreign_transferb in Hke. rewrite Hq in Hke. apply memb_in in Hm.
-    destruct (N.eq_dec o q) as [->|Hne]; [reflexivity|]. exfalso.
-    assert (Hex : existsb (fun r0 => match lookup r0 (owner (run h)) with
-                                      | Some o0 => negb (N.eqb o0 q) | None => false end) (transferred e) = true).
-    { apply existsb_exists. exists r. split; [exact Hm|]. rewrite Hold. apply negb_true_iff. apply N.eqb_neq. exact Hne. }
-    congruence. }
-  destruct e as [q eff a|q res|c vals|sd t v|done|q|]; try congruence.
-  - destruct (deniedb (run h) q eff); [congruence|].
-    destruct (memb r (issued_by (EEffect q eff a))) eqn:E; [|congruence]. right. right. apply memb_in. exact E.
-  - destruct (memb r (issued_by (EComplete q res))) eqn:E; [|congruence]. right. right. apply memb_in. exact E.
-  - destruct (memb r (transferred (ESpawn c vals))) eqn:E; [|congruence]. left.
-    clear Hnew.
-    rewrite (Htr c eq_refl eq_refl). split; [reflexivity|apply memb_in; exact E].
-  - destruct (memb r (transferred (ESend sd t v))) eqn:E; [|congruence]. left.
-    clear Hnew.
-    rewrite (Htr sd eq_refl eq_refl). split; [reflexivity|apply memb_in; exact E].
-  - rewrite Hold in Hnew. destruct (existsb (N.eqb o) done) eqn:Ex; [|congruence].
-    right. left. exists done. split; [reflexivity|apply existsb_eqb_in; exact Ex].
-Qed.
-
-(* ------------------------------------------------------------------ refuted statements: witnesses
-   Each witness is the event sequence of a run of the REAL environment (harness qv_own) on the
+(* ------------------------------------------------------------------ witnesses and probes
+   Each history is the event sequence of a run of the REAL environment (harness qv_own) on the
    Quiver program quoted above it. *)
 
-(* `p = @{ 0 __res_open__ =r, [r, 0] __res_use__ }, 5` : p is never awaited *)
-Definition witness_F10 : list event :=
-  [ESpawn 0 [VTuple []]; EEffect 1 (Open 0) (ANow (Some (VRes 1)));
-   EEffect 1 (Op 1 0) (ANow (Some VOther)); ETerminate 1; EOther].
-
-Theorem closed_after_termination_refuted :
-  exists h p r, reports_only_terminated h /\ backend_fresh h /\ quiescent (run h) /\
-                In p (dead (run h)) /\ lookup r (owner (run h)) = Some p /\ KnownF10 h p r.
-Proof.
-  exists witness_F10, 1, 1. repeat split; try reflexivity.
-  - unfold backend_fresh. vm_compute. constructor; [intros []|constructor].
-  - vm_compute. left. reflexivity.
-  - left. reflexivity.
-Qed.
-
 (* `b = @{ !#'m { =H[_] => Ok } }, r = 0 __res_open__, H[r] b, !b, [r, 0] __res_use__` :
-   the stale id 1 reaches backend.execute *)
+   the stale id 1 reaches backend.execute (F47, known) *)
 Definition witness_F47 : list event :=
   [ESpawn 0 [VTuple []]; EEffect 0 (Open 0) (ANow (Some (VRes 1))); ESend 0 1 (VTuple [VRes 1]);
    ETerminate 1; EOther; EResults [1]].
@@ -1029,77 +1085,81 @@ Proof.
   - vm_compute. discriminate.
 Qed.
 
-(* `b = @{ !#'m { =H[_] => Ok } }, c = @{ !#'m { =H[_] => Ok } }, r = 0 __res_open__, H[r] b, !b, H[r] c, !c` :
-   close_resource(1) was called twice before the repair of F48 *)
-Definition witness_F48 : list event :=
+(* F10 (repaired): `p = @{ 0 __res_open__ =r, [r, 0] __res_use__ }, 5` : p is never awaited; it is
+   watched from the moment it owns r, and its termination report closes r *)
+Definition probe_F10 : list event :=
+  [ESpawn 0 [VTuple []]; EEffect 1 (Open 0) (ANow (Some (VRes 1)));
+   EEffect 1 (Op 1 0) (ANow (Some VOther)); ETerminate 1; EOther; EWatchReport 1].
+
+Example unawaited_owner_is_cleaned_up :
+  reports_only_terminated probe_F10 /\ backend_fresh probe_F10 /\ quiescent (run probe_F10) /\
+  In 1 (dead (run probe_F10)) /\ owner (run probe_F10) = [] /\ closes (log (run probe_F10)) = [1] /\
+  ~ quiescent (run (firstn 5 probe_F10)).
+Proof.
+  repeat split; try reflexivity.
+  - unfold backend_fresh. vm_compute. constructor; [intros []|constructor].
+  - vm_compute. intros p [].
+  - vm_compute. left. reflexivity.
+  - intros [_ H]. apply (H 1); vm_compute; left; reflexivity.
+Qed.
+
+(* F48 (repaired): `b = @{..}, c = @{..}, r = 0 __res_open__, H[r] b, !b, H[r] c, !c` :
+   the stale handle sent to c is not registered again; closed once *)
+Definition probe_F48 : list event :=
   [ESpawn 0 [VTuple []]; ESpawn 0 [VTuple []]; EEffect 0 (Open 0) (ANow (Some (VRes 1)));
    ESend 0 1 (VTuple [VRes 1]); ETerminate 1; EOther; EResults [1];
-   ESend 0 2 (VTuple [VRes 1]); EOther; ETerminate 2; EResults []; EResults [2]].
+   ESend 0 2 (VTuple [VRes 1]); EOther; ETerminate 2; EResults []; EResults [2]; EWatchReport 1].
 
-(* since the repair of F48 the stale handle is not registered again: closed once *)
 Example stale_handle_resent_closed_once :
-  reports_only_terminated witness_F48 /\ backend_fresh witness_F48 /\
-  anyb stale_transferb init witness_F48 = true /\ closes (log (run witness_F48)) = [1].
+  reports_only_terminated probe_F48 /\ backend_fresh probe_F48 /\
+  anyb stale_transferb init probe_F48 = true /\ closes (log (run probe_F48)) = [1].
 Proof.
   repeat split; try reflexivity. unfold backend_fresh. vm_compute. constructor; [intros []|constructor].
 Qed.
 
-(* `b = @{ !#'m {..use..}, !#'m {..} }, c = @{ !#'m { =H[_] => Ok } }, r = 0 __res_open__, H[r] b, H[r] c, ...` :
-   process 0, no longer the owner, moves resource 1 from its live owner 1 to process 2 *)
-Definition witness_F49 : list event :=
+(* F49 (repaired): process 0 gave resource 1 to process 1 and then sends its stale copy to 2:
+   ownership stays with 1 *)
+Definition probe_F49 : list event :=
   [ESpawn 0 [VTuple []]; ESpawn 0 [VTuple []]; EEffect 0 (Open 0) (ANow (Some (VRes 1)));
-   ESend 0 1 (VTuple [VRes 1]); EEffect 1 (Op 1 0) (ANow (Some VOther))].
+   ESend 0 1 (VTuple [VRes 1]); EEffect 1 (Op 1 0) (ANow (Some VOther)); ESend 0 2 (VTuple [VRes 1])].
 
-Theorem transfer_only_by_owner_refuted :
-  exists h e q r o, initiates e q r /\ lookup r (owner (run h)) = Some o /\ o <> q /\
-                    ~ In o (dead (run h)) /\ lookup r (owner (run (h ++ [e]))) <> Some o /\
-                    KnownF49 (h ++ [e]).
-Proof.
-  exists witness_F49, (ESend 0 2 (VTuple [VRes 1])), 0, 1, 1. repeat split; try reflexivity.
-  - vm_compute. left. reflexivity.
-  - discriminate.
-  - vm_compute. intros [].
-  - vm_compute. discriminate.
-Qed.
+Example non_owner_send_moves_nothing :
+  lookup 1 (owner (run (firstn 5 probe_F49))) = Some 1 /\ lookup 1 (owner (run probe_F49)) = Some 1 /\
+  new_calls (run probe_F49) (EEffect 2 (Op 1 0) AFail) = [] /\
+  new_calls (run probe_F49) (EEffect 1 (Op 1 4) (ANow (Some VOther))) = [CExec 1 (Op 1 4)].
+Proof. repeat split; reflexivity. Qed.
 
 (* ------------------------------------------------------------------ non-vacuity *)
 
 (* three processes, a handle nested in a closure inside a tuple, transferred twice, its last owner
-   reported: none of the known classes, all hypotheses hold, and the resource is closed once *)
+   reported by a watch and by an await: all hypotheses hold, and the resource is closed once *)
 Definition good_history : list event :=
   [ESpawn 0 [VTuple []]; EEffect 0 (Open 1) AAsync; EComplete 0 (Some (VRes 1));
    ESend 0 1 (VTuple [VTuple [VFun [VRes 1]; VOther]]);
    EEffect 1 (Op 1 0) (ANow (Some VOther)); EEffect 0 (Op 1 4) AFail;
-   ESpawn 1 [VFun [VRes 1]; VTuple []]; ETerminate 1; EEffect 2 (Op 1 0) (ANow (Some VOther));
-   ETerminate 2; EResults [2]; EResults [1]].
+   ESpawn 1 [VFun [VRes 1]; VTuple []]; ETerminate 1; EWatchReport 1;
+   EEffect 2 (Op 1 0) (ANow (Some VOther));
+   ETerminate 2; EResults [2]; EResults [1]; EWatchReport 2].
 
 Example good_history_meets_all_hypotheses :
   reports_only_terminated good_history /\ backend_fresh good_history /\
-  ~ KnownF47 good_history /\ ~ KnownF49 good_history /\
-  ~ KnownF10 good_history 2 1 /\ In 2 (dead (run good_history)) /\
+  ~ KnownF47 good_history /\ quiescent (run good_history) /\ In 2 (dead (run good_history)) /\
   closes (log (run good_history)) = [1] /\
   log (run good_history) = [CExec 0 (Open 1); CExec 1 (Op 1 0); CExec 2 (Op 1 0); CClose 1].
 Proof.
   repeat split; try reflexivity.
   - unfold backend_fresh. vm_compute. constructor; [intros []|constructor].
   - vm_compute. discriminate.
-  - vm_compute. discriminate.
-  - vm_compute. intros [H|H]; discriminate.
+  - vm_compute. intros p [H|[]]. subst p. intros [H|[H|[]]]; discriminate.
   - vm_compute. left. reflexivity.
 Qed.
 
-(* the denied request of the old owner (process 0 after the send) is in good_history: *)
 Example good_history_has_denied_use :
   exists h1 h2, good_history = h1 ++ EEffect 0 (Op 1 4) AFail :: h2 /\
                 lookup 1 (owner (run h1)) = Some 1 /\ new_calls (run h1) (EEffect 0 (Op 1 4) AFail) = [].
 Proof.
   exists (firstn 5 good_history), (skipn 6 good_history). repeat split; reflexivity.
 Qed.
-
-Example close_example :
-  In (CClose 1) (new_calls (run (firstn 10 good_history)) (EResults [2])) /\
-  lookup 1 (owner (run (firstn 10 good_history))) = Some 2.
-Proof. split; [vm_compute; left; reflexivity|reflexivity]. Qed.
 
 Lemma run_log_extends : forall h e, log (run (h ++ [e])) = log (run h) ++ new_calls (run h) e.
 Proof. intros h e. rewrite run_snoc. apply log_extends. apply run_inv. Qed.
